@@ -1,32 +1,50 @@
 #!/usr/bin/env python3
-"""False-alarm test: applies each behaviour-preserving refactor of mutants/benign.json to a scratch copy of /repo and runs ALL registered checks on it.
+"""False-alarm test: applies each behaviour-preserving refactor (textual ones of mutants/benign.json and the independently produced patches under
+/verif/benign/<id>/patch.diff) to a scratch copy of /repo and runs ALL registered checks on it.
 Every check must exit 0 (listed KNOWN-FINDINGs allowed): a VIOLATION or an infrastructure error on code where the property still holds is a checker defect.
-usage: run_benign.py [id-prefix]"""
-import json, os, shutil, subprocess, sys
+usage: run_benign.py [id-prefix] [-j N]"""
+import glob, json, os, shutil, subprocess, sys
+from concurrent.futures import ThreadPoolExecutor
 V = "/verif"
 sys.path.insert(0, V + "/engine/rules")
 import selftest
-pref = sys.argv[1] if len(sys.argv) > 1 else ""
+args = sys.argv[1:]
+jobs = 4
+if "-j" in args:
+    i = args.index("-j"); jobs = int(args[i + 1]); del args[i:i + 2]
+pref = args[0] if args else ""
 ms = [m for m in json.load(open(V + "/mutants/benign.json")) if m["id"].startswith(pref)]
+for pd in sorted(glob.glob(V + "/benign/*/patch.diff")):
+    bid = os.path.basename(os.path.dirname(pd))
+    if bid.startswith(pref): ms.append({"id": bid, "patch": pd})
 props = [c["property_id"] for c in json.load(open(V + "/MANIFEST.json"))["checks"]]
-bad = 0
-for m in ms:
+
+def one(m):
     d, repo = selftest.make_scratch()
     try:
         try:
-            selftest.apply(repo, m)
+            if "patch" in m:
+                r = subprocess.run(["patch", "-s", "-p1", "-d", repo, "-i", m["patch"]], capture_output=True, text=True)
+                if r.returncode != 0: raise RuntimeError("patch failed: " + (r.stdout + r.stderr)[-200:])
+            else:
+                selftest.apply(repo, m)
         except Exception as e:
-            print(f"ERR {m['id']}: {e}"); bad += 1; continue
+            return m["id"], [("apply", 2, [str(e)])]
         env = dict(os.environ, RM_REPO=repo, RM_EVID=os.path.join(d, "ev"))
         alarms = []
         for p in props:
             r = subprocess.run([V + "/check", p], capture_output=True, text=True, env=env)
             if r.returncode != 0:
-                first = [l.strip() for l in r.stdout.splitlines() if "violation:" in l or "INFRA-ERROR" in l][:2]
+                first = [l.strip() for l in r.stdout.splitlines() if "violation:" in l or "INFRA-ERROR" in l][:3]
                 alarms.append((p, r.returncode, first))
-        print(f"{'ok ' if not alarms else 'BAD'} {m['id']:<36} {'' if not alarms else alarms}")
-        if alarms: bad += 1
+        return m["id"], alarms
     finally:
         shutil.rmtree(d, ignore_errors=True)
+
+bad = 0
+with ThreadPoolExecutor(jobs) as ex:
+    for bid, alarms in ex.map(one, ms):
+        print(f"{'ok ' if not alarms else 'BAD'} {bid:<36} {'' if not alarms else alarms}", flush=True)
+        if alarms: bad += 1
 print(f"benign refactors: {len(ms)}, false alarms on {bad}")
 sys.exit(1 if bad else 0)
